@@ -82,7 +82,8 @@ def mk_payload(x):
     k = x[0]
     if k == "agg" and x[1] in (OPTION, RESULT) and x[2] in ("Some", "Ok"):
         return x[3][0][1]
-    if k == "agg" and x[1] == OPTION and x[2] == "None":
+    if k == "agg" and ((x[1] == OPTION and x[2] == "None") or (x[1] == RESULT and x[2] == "Err")):
+        # the Some/Ok payload of a None/Err literal does not exist (infeasible member of a joined value)
         return ("undef",)
     if k == "call" and isinstance(x[1], str) and core.callee_base(x[1]) in WRAP_SOME:
         return x[2][0]
